@@ -163,6 +163,27 @@ mod c19 {
         schedule!(kani::any(), kani::any(), kani::any(), kani::any(), kani::any(), kani::any(), kani::any());
     }
 
+    // ---- longer CONCRETE schedules (quick tier): one per clause of the property that needs more than 3 steps
+    macro_rules! scenario {
+        ($name:ident: $($s:expr),*) => {
+            #[kani::proof]
+            #[kani::unwind(3)]
+            #[kani::stub(std::rt::thread_cleanup, noop)]
+            #[kani::stub(std::sync::Mutex::lock, lock_uncontended)]
+            fn $name() {
+                schedule!($($s),*);
+            }
+        };
+    }
+    // consumer parks; producer merges an update and then goes away; the consumer still receives the update, then the end
+    scenario!(c19_scenario_park_merge_drop_poll_start: 2, 0, 1, 3, 2);
+    // consumer parks; two merges; it receives both at once; the NEXT receive parks (a stale permit is not an end of stream)
+    scenario!(c19_scenario_park_merge_merge_poll_start: 2, 0, 0, 3, 2);
+    // a cancelled wait loses nothing: park, cancel, merge, restart => the update; restart again => parks
+    scenario!(c19_scenario_park_cancel_merge_start_start: 2, 4, 0, 2, 2);
+    // woken by a merge but cancelled before polling: the update is still delivered to the next receive, exactly once
+    scenario!(c19_scenario_park_merge_cancel_start_start: 2, 0, 4, 2, 2);
+
     /// producer learns that the consumer is gone
     #[kani::proof]
     #[kani::unwind(3)]
